@@ -181,9 +181,26 @@ def converge_fingerprint(case, verdict):
 
 # differences of a classified kind are recorded findings; the harness attaches the kind only under the conditions that
 # make a difference THAT finding (see classify / relabel* in harness/c01/converge.go)
-SOFT_KINDS = ("stale-san", "stale-mx", "stale-provider-unimported", "stale-sidecar-switches-service", "stale-dns-last-workload")
+SOFT_KINDS = ("stale-san", "stale-mx", "stale-provider-unimported", "stale-sidecar-switches-service", "stale-dns-last-workload",
+              "stale-provider-service-exported-to-nobody", "stale-store-ahead")
 # finding 7 (DNS ServiceEntry with workloadSelector loses its last workload) under its one fingerprint, whichever stream shows it
 DNS_LAST_WORKLOAD = "converge:stale-vs-cold-start:CDS:stale-dns-last-workload"
+# Finding 9: the LIMIT proved by ProtocolV3.store_ahead_breaks_convergence, on the real code. A history with hold / release
+# markers (event delivery parked while the stores and registries move on) that fails and CONVERGES (twice) when the very same
+# history is run without the markers: the difference is caused by the delivery lag, nothing else. The
+# harness half (relabelStoreAhead): the stale resources belong to a service object deleted under the hold whose own parked
+# ConfigUpdate call named its key.
+STORE_AHEAD = "converge:store-ahead-of-event-delivery"
+
+
+def without_hold(case):
+    return [case[0]] + [l for l in case[1:] if l.split()[0] not in ("hold", "release")]
+
+
+# recorded findings the rebuild stream runs over: the harness sets the differences they explain aside (by CAUSE, see
+# harness/c01/rebuild.go) and names them at the end of the walk; kind of the token -> fingerprint
+REBUILD_KNOWN = {"stale-dns-last-workload": DNS_LAST_WORKLOAD,
+                 "stale-provider-service-exported-to-nobody": "rebuild:rebuild-ne-build:LDS:provider-service-exported-to-nobody"}
 # a finding that another stream of C01 already records keeps that fingerprint
 SAME_FINDING = {"stale-sidecar-switches-service": "e2e:long-ne-fresh:eds-not-pushed:sidecar-switches-service-for-host"}
 
@@ -201,13 +218,32 @@ def converge_fingerprints(case, verdict):
     return [fp]
 
 
-def converge_minimise(ctx, case, verdict, budget=10):
+def converge_minimise(ctx, case, verdict, budget=8):
     """Greedy shrinking of a failing history: drop steps, then base objects, while the same clause still fails."""
     clause = verdict.split()[1]
 
+    def hard(v):
+        """(type, kind) of the differences that no recorded finding explains"""
+        out = set()
+        parts = v.split()
+        if len(parts) > 2:
+            for tok in parts[2].split(","):
+                seg = tok.split("/")
+                k = tok.rsplit(":", 1)[-1]
+                if len(seg) >= 3 and k in ("stale", "missing", "extra"):
+                    out.add((seg[1], k))
+        return out
+    want_hard = hard(verdict)
+
     def still_fails(c):
         v, _ = converge_verdicts(ctx, [c], "shrink")
-        return bool(v) and v[0].startswith("FAIL " + clause), (v[0] if v else "")
+        if not (v and v[0].startswith("FAIL " + clause)):
+            return False, (v[0] if v else "")
+        # shrinking must not turn the failure into ANOTHER one: a history whose difference no recorded finding explains
+        # may not shrink into a history that only shows a recorded finding
+        if want_hard and not (hard(v[0]) & want_hard):
+            return False, v[0]
+        return True, v[0]
 
     best, best_v = case, verdict
     runs = 0
@@ -301,12 +337,13 @@ def finish_rebuild(ctx, job):
             continue
         ctx.log("rebuild walk %d: %s" % (i, v[:400]))
         toks = v.split()[2].split(",") if len(v.split()) > 2 else []
-        if toks and all(t.endswith(":stale-dns-last-workload") for t in toks):
-            # the walk itself is fine; it ran over the trigger of recorded finding 7 (set aside by the harness, reported here)
+        kinds = set(t.rsplit(":", 1)[-1] for t in toks)
+        if toks and kinds <= set(REBUILD_KNOWN):
+            # the walk itself is fine; it ran over the trigger of a recorded finding (set aside by the harness, reported here)
             st["agree"] = False
-            ctx.violation(DNS_LAST_WORKLOAD, "rebuild walk: the server's PushContext still generates the cluster of a DNS ServiceEntry "
-                          "whose last selected workload went away: " + v.split(" ||")[0][:300],
-                          {"stream": "rebuild", "ops": [c[0]] + c[1:1 + after_step(v)], "oracle_verdict": v[:6000]}, True)
+            for k in sorted(kinds):
+                ctx.violation(REBUILD_KNOWN[k], "rebuild walk over the trigger of a recorded finding (%s): %s" % (k, v.split(" ||")[0][:300]),
+                              {"stream": "rebuild", "ops": [c[0]] + c[1:1 + after_step(v)], "oracle_verdict": v[:6000]}, True)
             continue
         clause = v.split()[1]
         # shrink: the prefix up to the failing step, then drop earlier steps while the same clause still fails at the end
@@ -368,40 +405,50 @@ def unreproduced_is_verdict(ctx, fp, case, verdict, rerun):
     return again >= 2 or seen[fp] >= 3
 
 
-def prepare_converge(ctx, n, sweep=False, ambient=False, slice_n=0):
-    """sweep=False: corpus + n random histories. sweep=True: every single-change history of the grammar (targeted search
+def prepare_converge(ctx, n, sweep=False, ambient=False, slice_n=0, corpus_part=None):
+    """sweep=False: n random histories. sweep=True: every single-change history of the grammar (targeted search
     when a tie is broken; part of the thorough tier). ambient=True: histories incl. the ambient objects, with a waypoint
-    proxy and a ztunnel-like delta client (PILOT_ENABLE_AMBIENT=true). Every history is compared with a cold-started
+    proxy and a ztunnel-like delta client (PILOT_ENABLE_AMBIENT=true). corpus_part=(i, k): no generated histories - the
+    i-th of k parts of the corpus (the parts run side by side). Every history is compared with a cold-started
     server after EVERY step (`coldeach`), not only at the end.  Returns the prepared job (cases generated, not yet run)."""
     import verif as V
     name = "converge-sweep" if sweep else ("converge-ambient" if ambient else "converge")
     st = {"cases": 0, "ops": 0, "agree": True}
-    ctx.streams[name + (("-slice" if slice_n else str(n)) if sweep else "")] = st
     case_list = []
-    cdir = os.path.join(V.HARNESS, "corpus", ctx.pid)
-    if os.path.isdir(cdir) and not sweep and not ambient:
-        for f in sorted(os.listdir(cdir)):
-            if f.startswith("converge.") and f.endswith(".ops"):
-                case_list += split_cases(ctx.read_lines(os.path.join(cdir, f)))
-    ncorpus = len(case_list)
-    tag = name + (str(n) if sweep and not slice_n else "")
-    g = os.path.join(ctx.work, "%s.gen.ops" % tag)
-    if os.path.exists(g):
-        os.remove(g)
-    rc, log = ctx.harness("gen", name, ctx.seed, n, g)
-    if rc != 0 or not os.path.exists(g):
-        ctx.tie_broken("harness-gen:converge", log)
-        return None
-    generated = split_cases(ctx.read_lines(g))
-    if slice_n:
-        # a seeded slice of the sweep (every quick run sees a different part of it as the seed varies)
-        rnd = random.Random(int(ctx.seed) * 7919 + 13)
-        generated = rnd.sample(generated, min(slice_n, len(generated)))
-    case_list += generated
+    if corpus_part is not None:
+        i, k = corpus_part
+        tag = "converge-corpus%d" % i
+        ctx.streams[tag] = st
+        cdir = os.path.join(V.HARNESS, "corpus", ctx.pid)
+        allc = []
+        if os.path.isdir(cdir):
+            for f in sorted(os.listdir(cdir)):
+                if f.startswith("converge.") and f.endswith(".ops"):
+                    allc += split_cases(ctx.read_lines(os.path.join(cdir, f)))
+        case_list = [c for j, c in enumerate(allc) if j % k == i]
+        ncorpus = len(case_list)
+    else:
+        ctx.streams[name + (("-slice" if slice_n else str(n)) if sweep else "")] = st
+        ncorpus = 0
+        tag = name + (str(n) if sweep and not slice_n else "")
+        g = os.path.join(ctx.work, "%s.gen.ops" % tag)
+        if os.path.exists(g):
+            os.remove(g)
+        rc, log = ctx.harness("gen", name, ctx.seed, n, g)
+        if rc != 0 or not os.path.exists(g):
+            ctx.tie_broken("harness-gen:converge", log)
+            return None
+        generated = split_cases(ctx.read_lines(g))
+        if slice_n:
+            # a seeded slice of the sweep (every quick run sees a different part of it as the seed varies)
+            rnd = random.Random(int(ctx.seed) * 7919 + 13)
+            generated = rnd.sample(generated, min(slice_n, len(generated)))
+        case_list += generated
     for c in case_list:
         if "coldeach" not in c[0].split()[5:]:
             c[0] += " coldeach"
-    return {"kind": "converge", "name": name, "tag": tag, "st": st, "cases": case_list, "ncorpus": ncorpus}
+    return {"kind": "converge", "name": tag if corpus_part is not None else name, "tag": tag, "st": st, "cases": case_list,
+            "ncorpus": ncorpus}
 
 
 def execute(ctx, job):
@@ -427,8 +474,8 @@ def execute_all(ctx, jobs):
         list(ex.map(lambda j: execute(ctx, j), jobs))
 
 
-def run_converge(ctx, n, sweep=False, ambient=False, slice_n=0):
-    job = prepare_converge(ctx, n, sweep, ambient, slice_n)
+def run_converge(ctx, n, sweep=False, ambient=False, slice_n=0, corpus_part=None):
+    job = prepare_converge(ctx, n, sweep, ambient, slice_n, corpus_part)
     execute(ctx, job)
     finish_converge(ctx, job)
 
@@ -460,6 +507,27 @@ def finish_converge(ctx, job):
             fps = converge_fingerprints(c, v)
             small, small_v = c, v
             known = [fp for fp in fps if any(k.get("status") == "known" and k.get("fingerprint") == fp for k in ctx.known)]
+            vtoks = v.split()[2].split(",") if len(v.split()) > 2 else []
+            # the harness attaches `stale-store-ahead` only when every stale resource belongs to a service object DELETED under
+            # the hold window whose own parked ConfigUpdate call named its key (relabelStoreAhead); anything else under a hold
+            # window is an ordinary violation
+            if len(known) != len(fps) and vtoks and all(t.endswith(":stale-store-ahead") for t in vtoks) \
+                    and any(l.split()[0] == "hold" for l in c[1:]):
+                # whether the push of the earlier events runs INSIDE the hold window is a race (that is the nature of the
+                # finding), so the failure need not show again on a re-run; what must hold is that the same history without the
+                # markers converges - twice
+                ok = 0
+                for _ in range(2):
+                    rv, _ = converge_verdicts(ctx, [without_hold(c)], "nohold-" + name)
+                    if rv and not rv[0].startswith("FAIL"):
+                        ok += 1
+                if ok == 2:
+                    ctx.log("converge case %d: stale under the hold window, converges without it - store ahead of event delivery" % i)
+                    st["agree"] = False
+                    ctx.violation(STORE_AHEAD, "event delivery held back while the stores moved on (hold / release): the long-lived "
+                                  "client ends stale; the same history without the hold converges: " + v.split(" ||")[0][:300],
+                                  {"stream": "converge", "ops": c, "oracle_verdict": v[:6000]}, True)
+                    continue
             if len(known) != len(fps):
                 # confirm that the difference is deterministic before it becomes a verdict: it must show again in BOTH of
                 # two more runs of the same history; otherwise it is logged and counted, not reported (the check must
@@ -486,7 +554,7 @@ def finish_converge(ctx, job):
                 # shrinking decides whether a difference after a BURST is a recorded finding (its trigger alone) or not, so it is
                 # not skipped; the number of shrunk cases per run is capped (each run of a history costs seconds)
                 shrunk = ctx.extra.setdefault("converge_shrunk", 0)
-                if shrunk < 4:
+                if shrunk < 3:
                     ctx.extra["converge_shrunk"] = shrunk + 1
                     small, small_v = converge_minimise(ctx, c, v)
                 else:
@@ -544,11 +612,13 @@ def run(ctx):
     ctx.harness = harness
     # The streams on real servers (frame hypothesis, RebuildOK) only need the harness binary and mostly WAIT for quiescence:
     # their processes run side by side with the table / proof / T-diff part below; their results are processed afterwards.
-    jobs = [prepare_converge(ctx, ctx.n(24, 400)),
-            prepare_converge(ctx, ctx.n(10, 150), ambient=True),
-            prepare_rebuild(ctx, ctx.n(180, 4000))]
+    jobs = [prepare_converge(ctx, 0, corpus_part=(0, 3)), prepare_converge(ctx, 0, corpus_part=(1, 3)),
+            prepare_converge(ctx, 0, corpus_part=(2, 3)),
+            prepare_converge(ctx, ctx.n(18, 400)),
+            prepare_converge(ctx, ctx.n(8, 150), ambient=True),
+            prepare_rebuild(ctx, ctx.n(150, 4000))]
     if ctx.quick():
-        jobs.append(prepare_converge(ctx, -1, sweep=True, slice_n=16))
+        jobs.append(prepare_converge(ctx, -1, sweep=True, slice_n=12))
     servers = threading.Thread(target=execute_all, args=(ctx, jobs))
     servers.start()
     try:
@@ -651,31 +721,48 @@ MANIFEST = {
                    "what a fresh control plane generates - provided RebuildOK (partial rebuild = from-scratch build) and SkipOK/ModelFrame "
                    "(skips are sound for the generators); skip_preserves. convergence_model instantiates the decision with the modelled "
                    "one over configuration-dependent proxy views, for histories of ordinary changes (no headless-endpoint marker "
-                   "events), and reduces multi-key merged requests to single-key decisions; convergence_model_refresh adds the "
-                   "computeProxyState refresh decisions under RefreshOK; InstantiationExample applies the theorem to a concrete "
-                   "generator that reads a ServiceEntry and a DestinationRule (non-vacuity: every hypothesis holds, the client ends with "
-                   "the new content) and shows the unrestricted frame false. convergence_wds / narrowed_eq_full: AddressesUpdated as "
+                   "events), with the waypoint references of address events carried as a function of the announced keys (att), and "
+                   "reduces multi-key merged requests to single-key decisions; convergence_model_refresh adds the computeProxyState "
+                   "refresh decisions under RefreshOK; InstantiationExample applies the theorems to three concrete instances in which "
+                   "every hypothesis holds: a sidecar whose clusters read a ServiceEntry and a DestinationRule, a WAYPOINT whose "
+                   "clusters read an attached address (and without the references the frame is proved false: wp_frame_needs_wrefs), "
+                   "and a configuration-dependent view over a genuinely partial rebuild (a Sidecar resource drops and restores the "
+                   "import of a service that changes, unpushed, in between: the client ends with the current content). convergence_wds / narrowed_eq_full: AddressesUpdated as "
                    "an instance of the protocol, skip sound without frame hypothesis, per-address narrowing exact. RebuildOK, ModelFrame "
                    "and RefreshOK for the REAL code are validated, not proved: rebuild stream (real updateContext vs createNewContext "
                    "through the real generators, without and with the server's xDS cache), edsnarrow stream, and long-lived clients vs "
                    "fresh clients vs a cold-started second server after EVERY step of histories over every config kind of the quantifier "
-                   "(incl. readiness, cross-registry selection, pod relabels, exportTo annotations, MeshConfig)."),
+                   "(incl. readiness, cross-registry selection, pod / WorkloadEntry relabels of connected proxies, exportTo incl. "
+                   "nobody, several EndpointSlices and slice relabels, permuted event orders and object ages, MeshConfig, Secrets, "
+                   "Ingress, VirtualService delegates, a second network with its gateway; bursts of 2-5 changes with gaps inside and "
+                   "beyond the debounce window, slow receivers (in-flight pushes, queue merges), clients connecting while a push is "
+                   "pending, event delivery held back while the stores move on)."),
     "level_note": ("Partial: the generators, the rebuilt indexes and the xDS cache are not modelled (covered by the rebuild / edsnarrow / "
-                   "converge / e2e differentials: sidecar, router, waypoint, ztunnel-like clients, CDS/EDS/LDS/RDS/NDS/WDS/WAUTH, SotW + "
-                   "delta in e2e). LIMIT of the protocol theorem: a config change is ONE atomic step (store write + event to the "
-                   "debouncer); in istiod the store and the registries run ahead of event delivery, and ProtocolV3."
-                   "store_ahead_breaks_convergence proves that with the two split the same hypotheses no longer give convergence (the "
-                   "defect class of /repo 32766a2) - on the real code that interleaving is only covered by the gate-controlled e2e stream "
-                   "and C02/C03. Histories with headless-endpoint marker events are outside convergence_model (table rows + converge "
-                   "histories only). The model's previous scope is the scope at the last sync (istiod: before the last reset; the real "
-                   "filter keeps at least as much). Trusted: Lean kernel + {propext, Quot.sound}; the hand-written model (tied by the "
+                   "converge / e2e differentials: sidecar, router, waypoint, ztunnel-like clients, CDS/EDS/LDS/RDS/NDS/ECDS/SDS/WDS/WAUTH, "
+                   "SotW + delta in e2e). LIMITS of the protocol theorems: (1) a config change is ONE atomic step (store write + event "
+                   "to the debouncer); ProtocolV3.store_ahead_breaks_convergence proves that with the two split the same hypotheses no "
+                   "longer give convergence (the defect class of /repo 32766a2). On the real code that interleaving is exercised by "
+                   "converge histories with hold/release markers (ConfigUpdate callers parked through the verifGateReq hook while the "
+                   "stores and registries move on; SotW clients only) - NOT by the e2e/c01 stream, which installs no gate. (2) "
+                   "Step.change assumes that the key ANNOUNCED to the debouncer is the key that changed (and that a waypoint's "
+                   "references travel with the address event, convergence_model's `att`, a static function of the key): the mapping "
+                   "registry event -> PushRequest (EDSUpdate / UpdateServiceEndpoints / pushServiceUpdates / the ambient index) is not "
+                   "modelled; known findings 3 and 7 are violations of exactly that assumption, found by the converge stream. (3) "
+                   "Histories with headless-endpoint marker events are outside convergence_model (table rows + converge histories "
+                   "only). (4) The model's previous scope is the scope at the last sync (istiod: before the last reset; the real filter "
+                   "keeps at least as much). (5) No model of the ECDS generator's own narrowing (referenced secrets), of pushXds's "
+                   "Delta.Subscribed narrowing and of WatchedResources changes: ECDS / SDS content is compared by the converge stream "
+                   "(WasmPlugin filters, gateway credentials), the delta side is C03's; PCDS generates nothing at default flags; the "
+                   "WDS narrowing lemma (narrowed_eq_full) is a stand-alone lemma under an idealised PerAddress, not part of the "
+                   "protocol. Trusted: Lean kernel + {propext, Classical.choice, Quot.sound}; the hand-written model (tied by the "
                    "exhaustive table and the needs/edsnarrow streams); Spec.Affects (written from the generators, a cross-check of the "
-                   "table only); pilot/pkg/xds/zz_verif_c01.go; feature flags at defaults. Two defects found and fixed in /repo "
-                   "(3f2fe0c, 7cce3d7); five known findings (stale SAN after scale-to-zero, stale disable_mx in ambient interop, EDS "
-                   "not pushed when a Sidecar/VS switches the service of a host, provider services outside the per-proxy dependency "
-                   "set, DNS ServiceEntry keeps the cluster of its last removed workload - a fix for the last one was reverted because "
-                   "an existing unit test pins the behaviour), each recognised by its TRIGGER and field, so that other defects with "
-                   "the same symptom are still violations."),
+                   "table only); pilot/pkg/xds/zz_verif_c01.go, zz_verif_e2e.go (request gate); feature flags at defaults; every "
+                   "caller of ConfigUpdate gives a reason. Two defects found and fixed in /repo (3f2fe0c, 7cce3d7); six known "
+                   "findings (stale SAN after scale-to-zero, stale disable_mx in ambient interop, EDS not pushed when a Sidecar/VS "
+                   "switches the service of a host, provider services outside the per-proxy dependency set, DNS ServiceEntry keeps the "
+                   "cluster of its last removed workload - a fix for that one was reverted because an existing unit test pins the "
+                   "behaviour -, provider backed by a Service created / deleted while exported to nobody), each recognised by its "
+                   "CAUSE (trigger step, objects involved, field), so that other defects with the same symptom are still violations."),
     "technique": ("Lean 4 theorems over an exact model of the push-decision logic and an abstract convergence protocol with partial "
                   "rebuild + exhaustive generated decision table (decide +kernel) + differential correspondence + "
                   "updateContext-vs-createNewContext, cache-vs-no-cache and cold-start differentials on real servers"),
